@@ -51,7 +51,7 @@ def src_hash():
   return _SRC_HASH
 
 
-def prune_caches(keep=3):
+def prune_caches(keep=8):
   base = cache_dir()
   if not os.path.isdir(base):
     return
